@@ -97,6 +97,31 @@ func (c *Ctx) trial(f func()) bool {
 	return false
 }
 
+// trialForm is trial for a rule with a weaker fallback: the attempt's obligations are withdrawn — and the
+// fallback may run — only if every obligation that failed says "the code is not written in a form this rule
+// recognises" (isForm). A failure that is a verdict about a recognised form stays: the fallback must never hide it.
+func (c *Ctx) trialForm(f func(), isForm func(Obligation) bool) (ok, onlyForm bool) {
+	n := len(c.Obls)
+	f()
+	ok, onlyForm = true, true
+	for _, o := range c.Obls[n:] {
+		if o.Status != OK {
+			ok = false
+			if !isForm(o) {
+				onlyForm = false
+			}
+		}
+	}
+	if ok || !onlyForm {
+		return ok, false
+	}
+	for _, o := range c.Obls[n:] {
+		delete(c.seen, o.Key())
+	}
+	c.Obls = c.Obls[:n]
+	return false, true
+}
+
 func rank(s Status) int {
 	switch s {
 	case OK:
